@@ -91,10 +91,18 @@ def _has(rs, param, field):
     return any(p == param and field in path for (p, path) in rs)
 
 
+def _u32digits_is_cursor(facts):
+    """with 64-bit digits U32Digits is a half-digit cursor (data, next_is_lo, last_hi_is_zero); with 32-bit digits it wraps the
+    slice iterator (`it`) and the cursor rules do not apply"""
+    a = facts.adts.get("biguint::iter::U32Digits")
+    names = {f["name"] for v in (a or {}).get("variants", []) for f in v["fields"]}
+    return "next_is_lo" in names or not names
+
+
 def check_iterators(ctx, res, config="all"):
     facts = ctx.facts(config)
     rs = read_sets(facts)
-    need = ("data", "next_is_lo", "last_hi_is_zero")
+    need = ("data", "next_is_lo", "last_hi_is_zero") if _u32digits_is_cursor(facts) else ("it",)
     methods = ("next", "next_back", "len", "last", "count", "size_hint")
     found = 0
     for b in facts.bodies:
@@ -244,6 +252,10 @@ def check_iterator_write_sets(ctx, res, config="all"):
     native digit the *other* end's flag has to be reset, otherwise len() is computed from an inconsistent state"""
     facts = ctx.facts(config)
     need = {"data", "next_is_lo", "last_hi_is_zero"}
+    if not _u32digits_is_cursor(facts):
+        res.ok("R9-writeset", "biguint::iter::U32Digits", {"not applicable": "32-bit digits: U32Digits wraps the slice iterator"}, nontrivial=False)
+        res.clause("R9: U32Digits write sets (not applicable with 32-bit digits)")
+        return
     n = 0
     for b in facts.bodies:
         if b.kind == "AssocFn" and b.self_ty and b.self_ty.startswith("biguint::iter::U32Digits") and b.name in ("next", "next_back"):
